@@ -81,6 +81,15 @@ func extractionSchema(client bool) *Schema {
 	addMessage(f, message("Addr", field("street", "string"), field("city", "string")))
 	addMessage(f, message("FlatP", field("id", "string"), withOpt(withOpt(msgField("home", ".ext.v1.Addr"), "sebuf.http.flatten", true), "sebuf.http.flatten_prefix", "home_")))
 	addMessage(f, message("FlatB", field("id", "string"), withOpt(msgField("addr", ".ext.v1.Addr"), "sebuf.http.flatten", true)))
+	// two flattened children in one message: the decoder handles them one after the other
+	addMessage(f, message("FlatTwo", field("id", "string"),
+		withOpt(withOpt(msgField("home", ".ext.v1.Addr"), "sebuf.http.flatten", true), "sebuf.http.flatten_prefix", "home_"),
+		withOpt(withOpt(msgField("work", ".ext.v1.Addr"), "sebuf.http.flatten", true), "sebuf.http.flatten_prefix", "work_")))
+	// unwrap in a map value with a scalar element type: the value of each entry is a bare JSON array of strings
+	addMessage(f, message("Tags", withOpt(repeated(field("values", "string")), "sebuf.http.unwrap", true)))
+	tagIndex := message("TagIndex", field("label", "string"))
+	addMapField("ext.v1", tagIndex, "by_key", msgField("value", ".ext.v1.Tags"), 2)
+	addMessage(f, tagIndex)
 	hdr := func(name, typ, format string, required bool) M {
 		h := M{"name": name, "type": typ, "required": required}
 		if format != "" {
